@@ -72,6 +72,20 @@ def run(ctx):
                     break
             if len(bad) > 1:
                 break
+        # the split itself: the header carries only the low four bits of the 12-bit code, whatever the code is
+        gf = prog.find("simple_dns::Header::get_flags")
+        if gf is None:
+            report.lost_anchor("Header::get_flags")
+        else:
+            evh = Evaluator(prog, Header12({}, 0x87B0).hooks())
+            for rn, rd in rcodes:
+                hdr = {"id": 0, "z_flags": 0, "opcode": EnumVal("OPCODE", "StandardQuery"), "response_code": EnumVal("RCODE", rn),
+                       "opt": EnumVal("Option", "None")}
+                w = evh.call(gf, [hdr])
+                n += 1
+                if not isinstance(w, int) or (w & 0xFFF0) != 0 or (rn != "Reserved" and (w & 0xF) != (rd & 0xF)):
+                    bad.append("Header::get_flags writes response code %s=%d as flags word %s: only its low 4 bits belong in the header "
+                               "(the upper 8 go to the OPT TTL)" % (rn, rd, ("%#06x" % w) if isinstance(w, int) else repr(w)))
         report.count(n)
         report.nontriv("ttl tables")
         report.extra["ttl_cases"] = n
